@@ -19,4 +19,5 @@ Definition run_c05 (e : stdenv) (s : sch) (j : json) : obs :=
       obs_fail (fun l => OL (map obs_ident l)) (unmarshal_identifiers s j);
       obs_request (new_request e s "POST" "/alltypes" [] FOErr (Some j));
       obs_request (new_request e s "PATCH" "/alltypes" [] FOErr (Some j));
-      obs_request (new_request e s "GET" "/alltypes" [] FOErr (Some j))].
+      obs_request (new_request e s "GET" "/alltypes" [] FOErr (Some j));
+      obs_request (new_request e s "PATCH" "/alltypes/x1" [] FOErr (Some j))].
